@@ -371,5 +371,5 @@ func (fc *FuncCtx) fieldOf(l *Loc, info *structInfo, i int) *Loc {
 func (fc *FuncCtx) elemFrame(heap, old, new, ref string) {
 	es := arrayElemSort(arrayElemSort(fc.eng.heapSort(heap)))
 	ef := fc.eng.elemFn(es)
-	fc.q.assume(fmt.Sprintf("(forall ((s Slice) (k Int)) (! (=> (not (= (s-arr s) %s)) (= (%s %s s k) (%s %s s k))) :pattern ((%s %s s k))))", ref, ef, new, ef, old, ef, new))
+	fc.q.assume(fmt.Sprintf("(forall ((s Slice) (k Int)) (! (=> (not (= (s-arr s) %s)) (= (%s %s s k) (%s %s s k))) :pattern ((%s %s s k)) :pattern ((%s %s s k))))", ref, ef, new, ef, old, ef, new, ef, old))
 }
